@@ -108,6 +108,38 @@ theorem parse_stream (hck : ChecksumLen) (magic : Bytes) (hm : magic.length = 4)
       simp only
       rw [ih (fun x hx => h x (by simp [hx])) fuel (by omega)]
 
+/-- frames followed by anything: the messages of the frames in order, each call consuming exactly
+    its frame, then whatever reading the remainder yields (e.g. the error of a faulty frame) — so a
+    fault after `n` good frames is reported after exactly those `n` messages -/
+theorem parse_stream_append (hck : ChecksumLen) (magic : Bytes) (hm : magic.length = 4) (ms : List Msg)
+    (h : ∀ m ∈ ms, WFMsg m ∧ (payload m).length ≤ Spec.Wire.maxSize) (tail : Bytes) :
+    parseAll magic ((ms.map (frameMsg magic)).flatten ++ tail) =
+      (ms.map (fun m => some (norm m)) ++ (parseAll magic tail).1, (parseAll magic tail).2) := by
+  induction ms with
+  | nil => simp
+  | cons m ms ih =>
+    obtain ⟨hwf, hlen⟩ := h m (by simp)
+    have hfl : 24 ≤ (frameMsg magic m).length := by
+      obtain ⟨hc, _⟩ := command_props m
+      have := hck (payload m)
+      simp [frameMsg, Spec.Msg.frame, hm, commandField_length _ hc, this]
+      omega
+    have ih' := ih (fun x hx => h x (by simp [hx]))
+    simp only [List.map_cons, List.flatten_cons, List.append_assoc, List.cons_append]
+    generalize hS : (ms.map (frameMsg magic)).flatten ++ tail = S at ih' ⊢
+    unfold parseAll at ih' ⊢
+    have hl : (frameMsg magic m ++ S).length = (frameMsg magic m).length + S.length := List.length_append
+    obtain ⟨f, hf⟩ : ∃ f, (frameMsg magic m ++ S).length = f + 1 := ⟨(frameMsg magic m ++ S).length - 1, by omega⟩
+    have hne : (frameMsg magic m ++ S).isEmpty = false := by
+      cases hq : frameMsg magic m with
+      | nil => rw [hq] at hfl; simp at hfl
+      | cons => rfl
+    rw [hf]
+    simp only [parseAllAux, hne, Bool.false_eq_true, if_false]
+    rw [parse_frame hck magic hm m hwf hlen]
+    simp only
+    rw [parseAllAux_fuel magic f S.length S (by omega) (Nat.le_refl _), ih']
+
 /-! ### rejection: wrong magic, wrong checksum, truncation, impossible length -/
 
 /-- a stream that does not start with the chain's magic is rejected (ValueError once the 24
@@ -164,27 +196,8 @@ theorem accepted_frame_valid (magic s : Bytes) (m : Option Msg) (r : Bytes)
     (h : streamDeserialize magic s = (.ok m, r)) :
     24 ≤ s.length ∧ s.take 4 = magic ∧ declaredLen s ≤ MAX_SIZE ∧ 24 + declaredLen s ≤ s.length ∧
     (s.drop 20).take 4 = Model.Msg.checksum ((s.drop 24).take (declaredLen s)) ∧
-    r = s.drop (24 + declaredLen s) := by
-  by_cases hs : s.length < 24
-  · rw [streamDeserialize_short magic s hs] at h; simp at h
-  · rw [streamDeserialize_unfold magic s (by omega)] at h
-    by_cases c1 : s.take 4 ≠ magic
-    · rw [if_pos c1] at h; simp at h
-    · rw [if_neg c1] at h
-      by_cases c2 : declaredLen s > MAX_SIZE
-      · rw [if_pos c2] at h; simp at h
-      · rw [if_neg c2] at h
-        by_cases c3 : s.length - 24 < declaredLen s
-        · rw [if_pos c3] at h; simp at h
-        · rw [if_neg c3] at h
-          by_cases c4 : (s.drop 20).take 4 ≠ Model.Msg.checksum ((s.drop 24).take (declaredLen s))
-          · rw [if_pos c4] at h; simp at h
-          · rw [if_neg c4] at h
-            have hr : r = s.drop (24 + declaredLen s) := by
-              have := congrArg Prod.snd h
-              rw [dispatch_snd] at this
-              exact this.symm
-            exact ⟨by omega, by simpa using c1, by omega, by omega, by simpa using c4, hr⟩
+    r = s.drop (24 + declaredLen s) :=
+  streamDeserialize_ok_valid magic s m r h
 
 /-- every strict prefix of a frame raises the truncation error (the stream is exhausted) -/
 theorem truncated_frame_trunc (hck : ChecksumLen) (magic cmd payload : Bytes) (hm : magic.length = 4)
